@@ -245,7 +245,17 @@ def run_engine(amh, engine, tier, seed, outdir, extra=()):
     open(os.path.join(outdir, "engine.log"), "w").write(out)
     res = dict(engine=engine, failures=[], infra=None, summary={}, wall_s=0.0, log_tail=out[-2000:])
     if rc != 0:
-        res["infra"] = f"engine {engine} exited {rc}: {out[-1500:]}"
+        # An engine that dies (abort, segfault, uncaught panic) while driving the implementation
+        # never does so on a tree where the property holds: that is a verdict about the code, with
+        # the engine's last words as the replay.  Only a timeout stays an infrastructure matter.
+        if rc == 124:
+            res["infra"] = f"engine {engine} timed out: {out[-1500:]}"
+            return res
+        how = f"signal {-rc}" if rc < 0 else f"exit status {rc}"
+        res["failures"].append(dict(engine=engine, kind="engine-crash", **{"class": "crash"},
+                                    case={"observed": f"the engine process ended with {how} while exercising "
+                                                      f"the implementation", "last_output": out[-1500:]}))
+        res["wall_s"] = time.time() - t0
         return res
     sp = glob.glob(os.path.join(outdir, "*.summary.json"))
     for p in sp:
@@ -465,8 +475,8 @@ def check(prop, spec, tier, seed, replay, t0):
     relevant = spec.get("relevant_classes")
 
     def is_relevant(f):
-        return relevant is None or f.get("kind") == "model-disagreement" or f.get("class") in relevant \
-            or f.get("kind") in relevant
+        return relevant is None or f.get("kind") in ("model-disagreement", "engine-crash") \
+            or f.get("class") in relevant or f.get("kind") in relevant
 
     failures = [f for f in failures if is_relevant(f)]
 
